@@ -2,6 +2,7 @@
    Only the property theorems live here; each is closed by [exact <lemma>] and followed by Print Assumptions.
    Proofs: Numscript/CompileCorrect*.v (no_panic is a corollary of compiler correctness: [sem] has no Panic). *)
 From FL Require Import Numscript.CompileCorrectClasses.
+From FL Require Import Numscript.ResourceLimit.
 Open Scope Z_scope.
 
 (* ---- no panic -----------------------------------------------------------------------------------------------------------------
@@ -98,6 +99,23 @@ Theorem C12_no_residue : forall p before r after,
   Some (run_program p (fst (fst r)) (snd (fst r)) (snd r)).
 Proof. exact run_no_residue. Qed.
 Print Assumptions C12_no_residue.
+
+(* ---- the 16-bit address space ------------------------------------------------------------------------------------------------
+   A program.Address is a uint16; an address that wrapped would alias resource 0 and the machine would pop a value of
+   the wrong type (a panic).  About the allocator of the model ([alloc], [append_resource]: the only writers of the
+   resource table): a table within the limit stays within it and every address handed out is below 2^16; the limit is
+   exact (a table of 2^16 entries refuses the next one, a shorter one never refuses).  Partial: stated of the allocator,
+   not lifted to [compile_script]; the real compiler is observed at 65 535 .. 65 538 distinct resources by the thorough
+   tier of obs-numscript (family resource-limit). *)
+Theorem C12_resource_addresses_fit_partial : forall r cs i cs', fits cs -> alloc r cs = Some (i, cs') -> addr_u16 i /\ fits cs'.
+Proof. exact resource_addresses_fit. Qed.
+Print Assumptions C12_resource_addresses_fit_partial.
+
+Theorem C12_resource_limit_exact_partial : forall r cs,
+  (length (c_res cs) = N.to_nat max_resources -> append_resource r cs = None) /\
+  ((N.of_nat (length (c_res cs)) < max_resources)%N -> append_resource r cs <> None).
+Proof. exact resource_limit_exact. Qed.
+Print Assumptions C12_resource_limit_exact_partial.
 
 (* ---- non-vacuity ---------------------------------------------------------------------------------------------------------- *)
 (* vars { account $a   monetary $b = balance($a, COIN)   monetary $c = balance($a, COIN) }      (two balance() on one account)
